@@ -106,6 +106,8 @@ partial def expr (s : Sexp) : D PExpr :=
   | .list [.atom "infix", op, l, r] => do pure (.infix (← infixOp (← str op)) (← expr l) (← expr r))
   | .list [.atom "assign", op, l, r] => do pure (.assign (← assignOp (← str op)) (← expr l) (← expr r))
   | .list [.atom "call", b, .list as, .atom "false"] => do pure (.call (← expr b) (PExprs.ofList (← as.mapM expr)))
+  | .list [.atom "call", .list [.atom "ident", n, .atom "false"], .list as, .atom "true"] => do
+    pure (.spawn (← str n) (PExprs.ofList (← as.mapM expr)))
   | .list [.atom "call", _, _, .atom "true"] => unsupported "spawn"
   | .list [.atom "index", b, i] => do pure (.index (← expr b) (← expr i))
   | .list [.atom "member", b, n, op] => do
